@@ -198,6 +198,19 @@ def _job(args):
             elif not isinstance(o2, str):
                 ok2 = 1          # the sift ended before the third layer: nothing to compare
             out.append({'kind': 'zerofreq', 'helper_ok': ok, 'sift_ok': ok2, 'seed': seed})
+        if seed % 3 == 2:
+            # the same extraction with data AND mask amplitude expressed in a tiny unit (an exact power of two): every
+            # intermediate scales exactly - a mask must not be judged "absent" by its absolute size
+            unit = 2.0 ** -40
+            amp = float(rng.choice([.5, 1.5]))
+            z = float(rng.choice([.1, .23]))
+            xf = np.asarray(x, float)
+            nph = int(rng.choice([1, 3, 4]))
+            kwh = dict(nphases=nph, nprocesses=1, imf_opts={'stop_method': 'fixed', 'max_iters': 3}, envelope_opts={}, extrema_opts={})
+            a = core.guarded(emd.sift.get_next_imf_mask, xf[:, None], z, amp, _timeout=60, **kwh)
+            b = core.guarded(emd.sift.get_next_imf_mask, xf[:, None] * unit, z, amp * unit, _timeout=60, **kwh)
+            ok = int(not isinstance(a, str) and not isinstance(b, str) and np.array_equal(np.asarray(a[0]) * unit, np.asarray(b[0])))
+            out.append({'kind': 'zerofreq', 'helper_ok': ok, 'sift_ok': 1, 'seed': seed, 'what': 'tiny unit'})
     return out
 
 
